@@ -9,7 +9,7 @@ Definition numbers_impl : list (string * arith_impl) :=
    ("add", AOp None Checked OpAdd "arithmetic-overflow");
    ("substract", AOp None Checked OpSub "arithmetic-overflow");
    ("multiply", AOp None Checked OpMul "arithmetic-overflow");
-   ("divide", AOp (Some "divide-by-zero") Raw OpDiv "");
+   ("divide", AOp (Some "divide-by-zero") Checked OpDiv "arithmetic-overflow");
    ("<", ACmp CmpLt);
    (">", ACmp CmpGt)
   ].
